@@ -8,9 +8,10 @@
 #include "vp.h"
 using namespace yaclib::detail::fiber;
 
-static unsigned g_cur = 1;                 // running fiber id (1 = A, 2 = B, 3 = C)
-static const void* g_parked_on;            // queue fiber B is parked on (only B blocks in these scenarios)
-static unsigned g_notified, g_waits;
+static unsigned g_cur = 1;                 // running fiber id (1 = A, 2 = B, 3 = C, 4 = D)
+struct Parked { const void* q; unsigned notified, shared; };
+static Parked g_park[4];                   // parked fibers, innermost last (sequentialisation: a parked fiber's stack frame hosts the fibers that run meanwhile)
+static unsigned g_npark, g_waits, g_want_shared, g_got;
 static unsigned g_excl, g_shared;          // ghost: holders as seen through successful returns
 static bool g_bad_excl, g_bad_mix;
 
@@ -20,30 +21,45 @@ std::uint64_t GetRandNumber(std::uint64_t max) { std::uint64_t r = vp_nondet_u64
 namespace fiber {
 WaitStatus FiberQueue::Wait(NoTimeoutTag) {
   ++g_waits;
-  g_parked_on = this; g_notified = 0;
+  unsigned slot = g_npark++;
+  vp_assume(slot < 4);
+  g_park[slot].q = this; g_park[slot].notified = 0; g_park[slot].shared = g_want_shared;
   unsigned me = g_cur;
-  int ran = vp_yield_to_pending();         // the other fibers of the scenario run while this one is parked
+  for (int i = 0; i < 3 && !g_park[slot].notified; ++i)     // the other fibers of the scenario run while this one is parked
+    if (!vp_yield_to_pending()) break;
   g_cur = me;
-  bool available = g_excl == 0 && g_shared == 0;
-  if (!g_notified) {
-    // nobody made this fiber runnable: if the lock it waits for is available now, that is a lost wake-up
-    vp_assert(!available, "C18 a blocked locker was not woken although the lock became available");
+  if (!g_park[slot].notified) {
+    for (unsigned i = 0; i < slot; ++i)
+      if (g_park[i].notified) { vp_reach("c18 wake-up order not expressible by nesting (covered by the mirrored scenario)"); vp_assume(false); }
+    // nobody is runnable any more: every fiber of the scenario is parked.  If the lock is available to one of them, that is a lost wake-up
+    for (unsigned i = 0; i <= slot; ++i) {
+      bool available = g_park[i].shared ? g_excl == 0 : (g_excl == 0 && g_shared == 0);
+      vp_assert(!available, "C18 a blocked locker was not woken although the lock became available");
+    }
     vp_reach("c18 legitimately blocked forever");
     vp_assume(false);
   }
-  if (!ran) { vp_reach("c18 legitimately blocked again"); vp_assume(false); }   // woken earlier, must wait again, nobody left to run
-  g_parked_on = nullptr;
+  g_park[slot].q = nullptr;
+  --g_npark;
+  g_want_shared = g_park[slot].shared;
   return WaitStatus::Ready;
 }
-void FiberQueue::NotifyOne() { if (g_parked_on == this) g_notified = 1; }
-void FiberQueue::NotifyAll() { if (g_parked_on == this) g_notified = 1; }
-bool FiberQueue::Empty() const noexcept { return g_parked_on != this; }
+static unsigned Waiters(const void* q) { unsigned n = 0; for (unsigned i = 0; i < 4; ++i) n += i < g_npark && g_park[i].q == q && !g_park[i].notified; return n; }
+void FiberQueue::NotifyOne() {             // the real queue picks a random parked fiber
+  unsigned n = Waiters(this);
+  if (n == 0) return;
+  unsigned pick = vp_nondet_u32(); vp_assume(pick < n);
+  for (unsigned i = 0; i < 4; ++i)
+    if (i < g_npark && g_park[i].q == this && !g_park[i].notified) { if (pick == 0) { g_park[i].notified = 1; return; } --pick; }
+}
+void FiberQueue::NotifyAll() { for (unsigned i = 0; i < 4; ++i) if (i < g_npark && g_park[i].q == this) g_park[i].notified = 1; }
+bool FiberQueue::Empty() const noexcept { return Waiters(this) == 0; }
 FiberQueue::~FiberQueue() {}
 }  // namespace fiber
 }  // namespace yaclib::detail
 
-static void GotExcl() { if (g_excl != 0) g_bad_excl = true; if (g_shared != 0) g_bad_mix = true; ++g_excl; }
-static void GotShared() { if (g_excl != 0) g_bad_mix = true; ++g_shared; }
+static void GotExcl() { if (g_excl != 0) g_bad_excl = true; if (g_shared != 0) g_bad_mix = true; ++g_excl; ++g_got; }
+static void GotShared() { if (g_excl != 0) g_bad_mix = true; ++g_shared; ++g_got; }
 template <typename M> struct Ctx { static M m; };
 template <typename M> M Ctx<M>::m;
 
@@ -66,7 +82,7 @@ static void Epilogue() {
   extern "C" void c18_##name##_A_unlock() { A_unlock<T>(); } extern "C" void c18_##name##_A_unlock_C_try() { A_unlock_C_trylock<T>(); }
 SCEN(Mutex, mutex) SCEN(RecursiveMutex, rec) SCEN(SharedMutex, shex)
 // SharedMutex: shared waiter behind an exclusive holder; exclusive waiter behind a shared holder
-extern "C" void c18_shsh_B() { g_cur = 2; Ctx<SharedMutex>::m.lock_shared(); GotShared(); Ctx<SharedMutex>::m.unlock_shared(); --g_shared; }
+extern "C" void c18_shsh_B() { g_cur = 2; g_want_shared = 1; Ctx<SharedMutex>::m.lock_shared(); GotShared(); Ctx<SharedMutex>::m.unlock_shared(); --g_shared; }
 extern "C" void c18_shared_pro() { g_cur = 1; Ctx<SharedMutex>::m.lock_shared(); GotShared(); }
 extern "C" void c18_shared_A_unlock() { g_cur = 1; --g_shared; Ctx<SharedMutex>::m.unlock_shared(); }
 extern "C" void c18_shared_A_unlock_C_try() {
@@ -74,6 +90,18 @@ extern "C" void c18_shared_A_unlock_C_try() {
   g_cur = 3; if (Ctx<SharedMutex>::m.try_lock()) GotExcl();
 }
 extern "C" void c18_epilogue() { Epilogue(); }
+// several parked lockers (general scheduler): fiber `id` locks in the given mode, holds across nothing, unlocks
+template <typename M, unsigned Id> static void LockerEx() { g_cur = Id; g_want_shared = 0; Ctx<M>::m.lock(); g_cur = Id; GotExcl(); --g_excl; Ctx<M>::m.unlock(); }
+template <unsigned Id> static void LockerSh() { g_cur = Id; g_want_shared = 1; Ctx<SharedMutex>::m.lock_shared(); g_cur = Id; GotShared(); --g_shared; Ctx<SharedMutex>::m.unlock_shared(); }
+#define LOCKERS(T, name) \
+  extern "C" void c18_##name##_L2() { LockerEx<T, 2>(); } extern "C" void c18_##name##_L3() { LockerEx<T, 3>(); } extern "C" void c18_##name##_L4() { LockerEx<T, 4>(); }
+LOCKERS(Mutex, mutex) LOCKERS(RecursiveMutex, rec) LOCKERS(SharedMutex, shex)
+extern "C" void c18_shsh_L2() { LockerSh<2>(); } extern "C" void c18_shsh_L3() { LockerSh<3>(); } extern "C" void c18_shsh_L4() { LockerSh<4>(); }
+extern "C" void c18_epilogue_n(unsigned lockers) {
+  vp_assert(g_npark == 0, "C18 a fiber is still parked at the end of the scenario");
+  vp_assert(g_got == lockers + 1, "C18 not every locker obtained the lock (lost wake-up)");
+  Epilogue();
+}
 // try_lock contract (no blocking): success only when compatible, failure only when incompatible; recursive re-entry by the owner
 extern "C" void c18_try_contracts() {
   Mutex m; g_cur = 1;
